@@ -1,5 +1,6 @@
 import ServiceModel.Keys.Proofs
 import ServiceModel.Keys.Generated
+import ServiceModel.Keys.IdDefs
 /-!
 # Request-context ids and request ids at byte level (core Lean only)
 
@@ -8,40 +9,12 @@ import ServiceModel.Keys.Generated
 written by hand, including the Go integer conversions (`uint64(int64)`, `int64(uint64)`,
 `uint16(int16)`, `int16(uint16)` are two's complement).  `*_matches_generated` tie them to
 the layouts the translator extracted from the Go source, so that a change of the Go
-functions breaks these lemmas.  The executable `driver ids` answers from these definitions
-and is compared with the real functions by the differential test.
+functions breaks these lemmas.  The definitions are in `Keys/IdDefs.lean` (so that the
+executable `driver ids`, which answers from them and is compared with the real functions by the
+differential test, still builds when a lemma of this file fails).
 -/
 namespace SM.Keys
 open Generated
-
-/-- `uint64(x)` for `x : int64` -/
-def u64 (x : Int) : Nat := (x % 2 ^ 64).toNat
-/-- `uint16(x)` for `x : int16` -/
-def u16 (x : Int) : Nat := (x % 2 ^ 16).toNat
-/-- `intN(x)` for an unsigned `x` of `w` bytes -/
-def toSigned (w : Nat) (n : Nat) : Int := if n < 2 ^ (8 * w - 1) then (n : Int) else (n : Int) - 2 ^ (8 * w)
-
-/-- Go's `l[a:b]` -/
-def sliceOf (a b : Nat) (l : Bytes) : Bytes := (l.take b).drop a
-
-/-- `GenerateRequestContextID(txHash, msgIndex)` -/
-def genCtxId (hash : Bytes) (idx : Int) : Bytes := hash ++ beN 8 (u64 idx)
-
-/-- `SplitRequestContextID(contextID)`; `none` is the error -/
-def splitCtxId (id : Bytes) : Option (Bytes × Int) :=
-  if id.length = 40 then some (sliceOf 0 32 id, toSigned 8 (fromBE (sliceOf 32 40 id))) else none
-
-/-- `GenerateRequestID(requestContextID, batchCounter, requestHeight, batchRequestIndex)`;
-    `batch` is the uint64 value -/
-def genReqId (ctx : Bytes) (batch : Nat) (height : Int) (index : Int) : Bytes :=
-  ctx ++ (beN 8 batch ++ (beN 8 (u64 height) ++ beN 2 (u16 index)))
-
-/-- `SplitRequestID(requestID)`; `none` is the error -/
-def splitReqId (id : Bytes) : Option (Bytes × Nat × Int × Int) :=
-  if id.length = 58 then
-    some (sliceOf 0 40 id, fromBE (sliceOf 40 48 id), toSigned 8 (fromBE (sliceOf 48 56 id)),
-      toSigned 2 (fromBE (sliceOf 56 58 id)))
-  else none
 
 /-! ## the tie to the translated Go source -/
 
